@@ -168,8 +168,9 @@ class ClassicalBasisSimState(SimulationState[ClassicalBasisState]):
             perm = gate.permutation
             basis = self._state.basis
             original_values = [basis[q] for q in mapped_qubits]
-            for i, q in enumerate(mapped_qubits):
-                basis[perm[i]] = original_values[i]
+            for i, value in enumerate(original_values):
+                # the content of the gate's i-th qubit moves to its perm[i]-th qubit
+                basis[mapped_qubits[perm[i]]] = value
         else:
             raise ValueError(
                 f'{gate} is not one of X, SWAP, QubitPermutationGate; a controlled version '
